@@ -223,7 +223,12 @@ DEP5_HEAD = "Format: https://www.debian.org/doc/packaging-manuals/copyright-form
 class FileStream(Stream):
     name = "file"
     rule = ("generated .reuse/dep5 files (1-4 Files paragraphs, 1-3 patterns each from a plain-glob grammar, a third of the paragraphs with a pattern that is not in normal POSIX form -- ./x, x//y, x/./y, x/, /x, x/../y: dead under dep5 --, multi-line "
-            "copyright, comments, a quarter of the License fields with the licence text after the synopsis, stand-alone License paragraphs; 40 % with a later paragraph repeating the copyright / licence of an earlier one around a different one, plus "
+            "copyright, comments, a quarter of the License fields with the licence text after the synopsis, stand-alone License paragraphs; every second file with a generated HEADER paragraph -- each of Upstream-Name, Upstream-Contact (1-2 lines), Source, Disclaimer, Comment, "
+            "Copyright (1-3 lines), License (with or without the licence text) present or absent, in four field orders --, a quarter of the Files "
+            "paragraphs there with the licence text after the expression of their License field, 0-2 stand-alone License "
+            "paragraphs before / after the Files paragraphs, 0-5 files with own information of four kinds (header with both / copyright only / licence only / "
+            ".license sibling), 40 % of those with narrow Files paragraphs only so that most paths are matched by none; plus 14 fixed shapes where only the "
+            "header paragraph carries Copyright / License; 40 % with a later paragraph repeating the copyright / licence of an earlier one around a different one, plus "
             "the nested ours / theirs / ours shapes) over a fixed tree of 14 files, some with own headers: `reuse lint --json` before and "
             "after `reuse convert-dep5` compared modulo the source name; order of write/unlink observed; refusal without dep5; "
             "non-trivial = conversion succeeded and at least two files are attributed by different paragraphs")
@@ -236,9 +241,63 @@ class FileStream(Stream):
     ODD_GLOBS = ["./src/*", "./*", "./README", "./docs/*.md", "src//*.c", "src//lib/*", "docs/./*", "data/./sub/2.json", "docs/", "docs/img/",
                  "src/lib/", "/a.txt", "src/../a.txt", "././*.md", "data//*.json", "README/", "src/./lib/d.h"]
     LIC = ["MIT", "0BSD", "GPL-3.0-or-later", "Apache-2.0 OR MIT", "CC0-1.0"]
+    LIC_SINGLE = ["MIT", "0BSD", "GPL-3.0-or-later", "CC0-1.0", "Apache-2.0"]
+    NARROW = ["data/*.json", "docs/img/*.png", "README", "a.txt", "src/lib/*", "data/sub/2.json", "\\*.md", "src/*.c"]
+    # own information of a file: complete header, copyright only, licence only, in a .license sibling
+    OWN_KINDS = ["both", "copyright", "licence", "sibling"]
+    LICENCE_TEXT = ["Permission is hereby granted, free of charge, to any person", "", "obtaining a copy of this software.", "License: not a field"]
+
+    def gen_head(self, rng):
+        h = {"order": rng.randrange(4)}
+        if rng.random() < 0.7:
+            h["name"] = rng.choice(["demo", "demo project", "d\u00e9mo"])
+        if rng.random() < 0.6:
+            h["contact"] = rng.sample(["Jane <jane@example.com>", "John <john@example.com>", "https://example.com/contact"], rng.randint(1, 2))
+        if rng.random() < 0.6:
+            h["source"] = "https://example.com/demo"
+        if rng.random() < 0.35:
+            h["disclaimer"] = rng.choice([["This package is not part of Debian."], ["non-free because", "", "of reasons"]])
+        if rng.random() < 0.4:
+            h["comment"] = rng.choice([["a comment"], ["a comment", "", "Copyright: not a field", "more"]])
+        if rng.random() < 0.7:
+            h["copyright"] = ["%d Package Holder %d" % (rng.randint(1990, 2024), rng.randint(1, 9)) for _ in range(rng.randint(1, 3))]
+        if rng.random() < 0.7:
+            h["license"] = rng.choice(self.LIC)
+            h["license_text"] = rng.random() < 0.4
+        return h
+
+    @staticmethod
+    def multiline(lines):
+        return "\n".join(([lines[0]] if lines else []) + [" " + (l if l else ".") for l in lines[1:]])
+
+    def head_text(self, h):
+        """The header paragraph: Format first, then the optional fields in one of four orders."""
+        fields = []
+        if h.get("name"):
+            fields.append("Upstream-Name: " + h["name"])
+        if h.get("contact"):
+            fields.append("Upstream-Contact: " + self.multiline(h["contact"]))
+        if h.get("source"):
+            fields.append("Source: " + h["source"])
+        if h.get("disclaimer"):
+            fields.append("Disclaimer: " + self.multiline(h["disclaimer"]))
+        if h.get("comment"):
+            fields.append("Comment: " + self.multiline(h["comment"]))
+        if h.get("copyright"):
+            fields.append("Copyright: " + self.multiline(h["copyright"]))
+        if h.get("license"):
+            fields.append("License: " + self.multiline([h["license"]] + (self.LICENCE_TEXT if h.get("license_text") else [])))
+        o = h.get("order", 0)
+        if o == 1:
+            fields.reverse()
+        elif o == 2:
+            fields = fields[-2:] + fields[:-2]
+        elif o == 3:
+            fields = fields[1::2] + fields[0::2]
+        return "Format: https://www.debian.org/doc/packaging-manuals/copyright-format/1.0/\n" + "".join(f + "\n" for f in fields)
 
     def cases(self, tier, rng):
-        n = 200 if tier == "thorough" else 40
+        n = 240 if tier == "thorough" else 48
         for i in range(n):
             paras = []
             for _ in range(rng.randint(1, 4)):
@@ -262,7 +321,37 @@ class FileStream(Stream):
             case = {"paras": paras, "own": rng.sample(self.TREE, 3)}
             if rng.random() < 0.2:
                 case["standalone"] = rng.sample(self.LIC, rng.randint(1, 2))     # stand-alone License paragraphs with the full text
+            if i % 2:
+                # the header paragraph with any of its optional fields (DEP-5 allows Copyright / License -- with or without the
+                # licence text -- / Comment / Disclaimer there: they describe the package as a whole and attribute nothing to
+                # any path), stand-alone License paragraphs, and files of every kind of own information that no Files
+                # paragraph needs to match
+                case["head"] = self.gen_head(rng)
+                case["lic_paras"] = [{"l": l, "comment": rng.random() < 0.3} for l in rng.sample(self.LIC_SINGLE, rng.choice([0, 0, 1, 2]))]
+                case["own"] = rng.sample(self.TREE, rng.randint(0, 5))
+                case["own_kinds"] = {f: rng.choice(self.OWN_KINDS) for f in case["own"]}
+                if rng.random() < 0.4:
+                    # narrow paragraphs only: most of the tree is matched by no Files paragraph
+                    case["paras"] = [dict(p, g=rng.sample(self.NARROW, rng.randint(1, 2))) for p in paras[:rng.randint(1, 2)]]
+                for p in case["paras"]:
+                    if rng.random() < 0.25:
+                        p["text"] = True    # the License field of a Files paragraph carries the licence text after the expression
             yield case
+        # the header paragraph alone carries information, with every optional field present; the Files paragraphs are narrow, so most
+        # paths are matched by none of them (with and without information of their own)
+        full = {"name": "demo", "contact": ["Jane <jane@example.com>", "John <john@example.com>"], "source": "https://example.com/demo",
+                "disclaimer": ["This package is not part of Debian.", "", "It is merely packaged."], "comment": ["a comment", "", "more"],
+                "copyright": ["2019 The Demo Team", "2021 Example Ltd"], "license": "MIT", "license_text": True, "order": 0}
+        narrow = {"c": ["2020 Jane Doe"], "l": "0BSD", "comment": False}
+        for k, head in enumerate((full, dict(full, license_text=False), dict(full, copyright=["2019 The Demo Team"], license="Apache-2.0 OR MIT"),
+                                  {"copyright": ["2019 The Demo Team"], "license": "CC0-1.0", "order": 1},
+                                  {"copyright": ["2019 The Demo Team"], "order": 2}, {"license": "GPL-3.0-or-later", "license_text": True, "order": 3},
+                                  {"comment": ["only a comment"], "disclaimer": ["only a disclaimer"], "order": 1})):
+            own = [["src/a.c", "docs/x.md"], ["README"], [], ["src/a.c", "src/lib/d.h", "b.md", "data/1.json"]][k % 4]
+            kinds = {f: self.OWN_KINDS[(k + j) % len(self.OWN_KINDS)] for j, f in enumerate(own)}
+            yield {"paras": [dict(narrow, g=["data/*.json"], text=k % 2 == 0)], "own": own, "own_kinds": kinds, "head": head, "lic_paras": []}
+            yield {"paras": [dict(narrow, g=["docs/img/*.png", "a.txt"]), dict(narrow, g=["src/lib/*"], l="MIT")], "own": own, "own_kinds": kinds,
+                   "head": head, "lic_paras": [{"l": "0BSD", "comment": True}]}
         # ours / theirs / ours again, nested: `*`, `src/*`, `src/lib/*`
         us = {"c": ["2020 Jane Doe"], "l": "MIT", "comment": False}
         them = {"c": ["2019 Vendor Inc."], "l": "Apache-2.0 OR MIT", "comment": False}
@@ -278,17 +367,25 @@ class FileStream(Stream):
     LICENCE_TEXTS = [["Permission is hereby granted, free of charge, to any person"], ["First paragraph of the text", ".", "Second paragraph, after an empty line"],
                      ["text that mentions SPDX-License-Identifier: GPL-2.0-only", ".", " indented line"], ["On Debian systems the full text is in /usr/share/common-licenses/X"]]
 
-    def dep5_text(self, paras, standalone=()):
-        out = [DEP5_HEAD]
+    def dep5_text(self, paras, head=None, lic_paras=(), standalone=()):
+        out = [DEP5_HEAD if head is None else self.head_text(head)]
+        tail = []
+        for k, lp in enumerate(lic_paras):
+            # stand-alone License paragraphs (the text of a licence that Files paragraphs refer to by name): before, between or
+            # after the Files paragraphs
+            t = "\nLicense: %s\n" % self.multiline([lp["l"]] + self.LICENCE_TEXT)
+            if lp.get("comment"):
+                t += "Comment: about this licence\n"
+            (out if k % 2 else tail).append(t)
         for p in paras:
             lic = p["l"] + "".join("\n " + l for l in p.get("ltext", []))
             out.append("\nFiles: %s\nCopyright: %s\nLicense: %s\n" % (
-                " ".join(p["g"]), "\n           ".join(p["c"]), lic))
+                " ".join(p["g"]), "\n           ".join(p["c"]), self.multiline([p["l"]] + self.LICENCE_TEXT) if p.get("text") else lic))
             if p["comment"]:
                 out[-1] += "Comment: some\n comment\n"
         for l in standalone:
             out.append("\nLicense: %s\n The full text of %s\n .\n in a paragraph of its own\n" % (l, l))
-        return "".join(out)
+        return "".join(out + tail)
 
     def impl(self, case):
         import pathlib
@@ -297,12 +394,18 @@ class FileStream(Stream):
             for f in self.TREE:
                 body = "content of %s\n" % f
                 if f in case["own"]:
-                    body = "SPDX-FileCopyrightText: 2001 Own Holder\nSPDX-License-Identifier: ISC\n" + body
+                    kind = case.get("own_kinds", {}).get(f, "both")
+                    info = ("SPDX-FileCopyrightText: 2001 Own Holder\n" if kind != "licence" else "") + \
+                           ("SPDX-License-Identifier: ISC\n" if kind != "copyright" else "")
+                    if kind == "sibling":
+                        files[f + ".license"] = info
+                    else:
+                        body = info + body
                 files[f] = body
             for lic in ["MIT", "0BSD", "GPL-3.0-or-later", "Apache-2.0", "CC0-1.0", "ISC"]:
                 files["LICENSES/%s.txt" % lic] = "text\n"
             if case["paras"] is not None:
-                files[".reuse/dep5"] = self.dep5_text(case["paras"], case.get("standalone", ()))
+                files[".reuse/dep5"] = self.dep5_text(case["paras"], case.get("head"), case.get("lic_paras", ()), case.get("standalone", ()))
             cli.write_tree(root, files)
             code0, before, exc0 = cli.lint_json(root)
             # observe the order of the two file operations
@@ -349,6 +452,8 @@ class FileStream(Stream):
                         break
                 else:
                     detail = "summary: %s -> %s" % (json.dumps(nb[1:]), json.dumps(na[1:]))
+            if not same and after is None:
+                detail = "after the conversion `reuse lint --json` gives no report (exit %s%s)" % (code1, ", %s" % type(exc1).__name__ if exc1 is not None else "")
             attributed = len({json.dumps(v[0]) for v in (norm(after)[0].values() if after else [])})
             return json.dumps({"exit": code, "log": log, "dep5": has_dep5, "toml": has_toml, "same": same,
                                "lint_exit": [code0, code1], "distinct": attributed, **({"detail": detail[:400]} if detail else {})}, sort_keys=True)
@@ -387,7 +492,8 @@ class FileStream(Stream):
         return impl_out if r.get("distinct", 0) >= 2 else None
 
     def show(self, case):
-        return {"dep5": self.dep5_text(case["paras"], case.get("standalone", ())) if case["paras"] else None, "own": case["own"]}
+        return {"dep5": self.dep5_text(case["paras"], case.get("head"), case.get("lic_paras", ()), case.get("standalone", ())) if case["paras"] else None, "own": case["own"],
+                **({"own_kinds": case["own_kinds"]} if case.get("own_kinds") else {})}
 
 
 PROPERTY = Property(
